@@ -45,6 +45,7 @@ func runC17(w *World, r *Report) {
 	c17PullVerify(w, r)
 	c17VerifyErrorFatal(w, r)
 	c17VerifyName(w, r)
+	c17DepUpdateVerify(w, r)
 }
 
 func c17Verify(w *World, r *Report) {
@@ -788,5 +789,42 @@ func c17VerifyName(w *World, r *Report) {
 	}
 	if n == 0 {
 		r.Unk("C17/VERIFY-NAME", "no-call", w.Pos(vc.Pos()), "VerifyChart does not call Signatory.Verify")
+	}
+}
+
+// c17DepUpdateVerify: `helm dependency update --verify` requires a provenance file for every archive
+// (VerifyAlways). `dependency build --verify` is the lenient sibling (VerifyIfPossible); sharing code
+// between the two must not make update lenient too.
+func c17DepUpdateVerify(w *World, r *Report) {
+	r.Rule("C17/DEP-UPDATE-VERIFY", "in `helm dependency update` every constant stored into the manager's verification mode is VerifyAlways", 1)
+	fn := w.Fn("pkg/cmd", "newDependencyUpdateCmd")
+	if fn == nil {
+		r.Unk("C17/DEP-UPDATE-VERIFY", "anchor", "-", "pkg/cmd.newDependencyUpdateCmd not found")
+		return
+	}
+	r.Fn(FuncName(fn))
+	always := verifyAlwaysValue(w)
+	n := 0
+	for _, f := range withAnon(fn) {
+		for _, b := range f.Blocks {
+			for _, in := range b.Instrs {
+				st, ok := in.(*ssa.Store)
+				if !ok {
+					continue
+				}
+				if _, t, fl := fieldNameOf(st.Addr); t != "Manager" || fl != "Verify" {
+					continue
+				}
+				k, isC := constInt(st.Val)
+				if !isC {
+					continue
+				}
+				n++
+				r.Check(k == always, "C17/DEP-UPDATE-VERIFY", fmt.Sprintf("store#%d", n), w.InstrPos(st), "dependency update --verify uses VerifyAlways", "dependency update sets a verification mode other than VerifyAlways: with --verify an archive that is served without a provenance file is accepted with a warning")
+			}
+		}
+	}
+	if n == 0 {
+		r.Unk("C17/DEP-UPDATE-VERIFY", "no-store", w.Pos(fn.Pos()), "dependency update never sets the manager's verification mode")
 	}
 }
